@@ -13,6 +13,10 @@ import (
 
 func init() { register("C10", runC10) }
 
+// the dead fast path is probed on every down-sampling case until its known disagreement has been reproduced
+// once in this run (then on a sample), so that the recorded finding is reported by every run
+var c10FastSeen bool
+
 func voteRef(ls []uint64) uint64 {
 	m := map[uint64]int{}
 	for _, l := range ls {
@@ -709,7 +713,7 @@ func runC10(c *Ctx) {
 				}
 				// fast path on a second copy (dead code in the server)
 				var fast *labels.Block
-				if it%5 == 0 {
+				if it%5 == 0 || !c10FastSeen {
 					ser, _ := recv.MarshalBinary()
 					fast = new(labels.Block)
 					if len(ser) >= 24 {
@@ -748,6 +752,7 @@ func runC10(c *Ctx) {
 						bad = "its result cannot be decoded: " + p2
 					}
 					if bad != "" {
+						c10FastSeen = true
 						c.Report("O", "C10 DownresFast-disagrees-with-DownresSlow", "the block-domain fast down-sampling (DownresFast, not called by any live code) disagrees with the array-domain one", blockReplay(before, history+bad+"\n"))
 					}
 				}
